@@ -74,6 +74,10 @@ def observe(sp, xml, binding=env.BINDING_POST, outstanding=None, conv_info=None,
                 obs['came_from'] = getattr(resp, 'came_from', None)
                 obs['in_response_to'] = getattr(resp, 'in_response_to', None)
                 try:
+                    obs['authn_info'] = [[a, list(b)] for a, b, _ in resp.authn_info()]
+                except Exception as exc:
+                    obs['authn_info_exc'] = type(exc).__name__
+                try:
                     si = resp.session_info()
                     obs['nooa'] = si.get('not_on_or_after')
                     obs['issuer'] = si.get('issuer')
